@@ -393,7 +393,8 @@ public:
                         }
                         // a session that is not a resumption cannot bring replies to requests of earlier connections:
                         // whatever had been retained for a resumable session must have been completed by now
-                        if (w.client->streamManagementState() != QXmppClient::ResumedStream) {
+                        const bool resumedTruth = w.server->current() ? w.server->current()->resumedHere : w.client->streamManagementState() == QXmppClient::ResumedStream;
+                        if (!resumedTruth) {
                             for (const auto &t : iqs) {
                                 if (t->fired == 0 && t->issuedOnLink < w.linkIndex()) {
                                     w.violation(QStringLiteral("request_left_pending"), QStringLiteral("C10:iq_pending_after_new_session_opened"),
